@@ -120,7 +120,7 @@ def command(rng, cpu, lo):
 class C17(Engine):
     prop = "C17"
     title = "naken_util never crashes, hangs or corrupts memory"
-    quick_budget = 45
+    quick_budget = 90
     quick_runs = 4000
     thorough_budget = 1200
     variants = ("small",)
